@@ -393,9 +393,19 @@ func c14RunConf(r *vkit.Run, c *c14Conf, fs *fileSet, R int) {
 }
 
 func c14(r *vkit.Run) {
-	r.SetRule("file sets built from a fixed skeleton (2 products, 3 host-tags, exact+wildcard hosts, vips, basic+advanced rules that expose the host-tag in the cluster choice, 6 clusters x 1-3 sub-clusters x 2-4 equal-weight backends, random names/weights) with exactly one hazard injected: " + strings.Join(c14Hazards, ", ") + ". Each file set is loaded R times (q 40 / t 400; a file set already shown order-dependent is abandoned 13 loads later) in this process - LoadServerDataConf + BalTable.Init, followed by 0/1/2 BalTableReload of the same files (load index mod 3); for reload-adds-backends an older cluster_table generation is loaded first. Decision vector = (product, cluster, error?) of ~40 probe requests (host spellings x vip x path) and (sub-cluster, backend) of 8 Balance calls per cluster with fixed client addresses (hash strategy client-ip, no slow start, so no clock or PRNG is involved). Pass = all R vectors equal, or all R loads rejected. Non-trivial = a hazard is present; distinct = file contents")
+	r.SetRule("file sets built from a fixed skeleton (2 products, 3 host-tags, exact+wildcard hosts, vips, basic+advanced rules that expose the host-tag in the cluster choice, 6 clusters x 1-3 sub-clusters x 2-4 equal-weight backends, random names/weights) with exactly one hazard injected: " + strings.Join(c14Hazards, ", ") + ". Each file set is loaded R times (q 40 / t 400; a file set already shown order-dependent is abandoned 13 loads later) in this process - LoadServerDataConf + BalTable.Init, followed by 0/1/2 BalTableReload of the same files (load index mod 3); for reload-adds-backends an older cluster_table generation is loaded first. Decision vector = (product, cluster, error?) of ~40 probe requests (host spellings x vip x path) and (sub-cluster, backend) of 8 Balance calls per cluster with fixed client addresses (hash strategy client-ip, no slow start, so no clock or PRNG is involved). Pass = all R vectors equal, or all R loads rejected. Non-trivial = a hazard is present; distinct = file contents." + c14DupRule)
 	r.Assume("Go randomises map iteration per range statement, so R in-process loads sample R independent visiting orders; child processes add nothing for these loaders (no package-level state)")
 	if r.Replay != "" {
+		var dw struct {
+			Case c14DupCase `json:"case"`
+		}
+		if err := r.LoadReplay(&dw); err == nil && dw.Case.Family != "" {
+			fs := newFileSet("c14dup", "replay")
+			defer fs.remove()
+			c14DupRun(r, &dw.Case, fs, 400)
+			r.SetMinDistinct(0)
+			return
+		}
 		var w struct {
 			Conf c14Conf `json:"conf"`
 		}
@@ -411,6 +421,10 @@ func c14(r *vkit.Run) {
 		defer fs.remove()
 		c14RunConf(r, &w.Conf, fs, 400)
 		r.SetMinDistinct(0)
+		return
+	}
+	if os.Getenv("VROUTE_ONLY_DUP") != "" { // developer aid only (timing of the duplicate family)
+		c14Dup(r)
 		return
 	}
 	perHazard := r.N(20, 120)
@@ -433,6 +447,8 @@ func c14(r *vkit.Run) {
 	if r.Counter("hazard_none") == 0 {
 		r.Inconclusive("control group (no hazard) missing")
 	}
+	// duplicate family: hosts / tags / VIPs listed twice along every axis of "same"
+	c14Dup(r)
 	// reload-count independence of the gslb level: a table that reached a configuration through
 	// reloads (incl. added sub-clusters) must decide like a table initialised directly with it
 	scratch := os.Getenv("VERIF_SCRATCH")
